@@ -154,7 +154,8 @@ def run(c, tier):
         for inv, x in (("VacNoEviction", "evict_q"), ("VacNoBR", "reg_q"), ("VacNoBannedRefusal", "ban"), ("VacNoFull", "book")):
             cfgp = os.path.join(_wd(), "vac_%s.cfg" % inv)
             base = open(os.path.join(V.ROOT, "spec", "MC_PeerNet_%s.cfg" % x)).read()
-            base = "\n".join(l for l in base.splitlines() if not l.startswith(("INVARIANT", "PROPERTY")))
+            # without the VIEW: it hides `out`, and a refusal changes nothing else - the state would not count as new
+            base = "\n".join(l for l in base.splitlines() if not l.startswith(("INVARIANT", "PROPERTY", "VIEW")))
             with open(cfgp, "w") as f:
                 f.write(base + "\nINVARIANT %s\n" % inv)
             r = V.tlc(PID, "MC_PeerNet", cfgp, workers=3, timeout=900, coverage=False, tag="vac_" + inv)
